@@ -340,6 +340,15 @@ func (g *Gen) scSizes(p *Pool) []Op {
 	if mx == 0 {
 		return nil
 	}
+	if g.r.chance(35) {
+		// fixed signals: x and its follower are held by every group (the follower's position is
+		// shared by the groups: open finding D35 of the C01/C07 stream when x changes its size)
+		return []Op{op("MuxClearAll", mx),
+			op("SigUpdateName", x, 0), op("SigUpdateName", f0, 1),
+			op("StdSetType", x, t8), op("StdSetType", f0, t4),
+			op("MuxInsertSignal", mx, x, 0), op("MuxInsertSignal", mx, f0, 8),
+			op("StdSetType", x, t4), op("StdSetType", x, t12), op("StdSetType", x, t8)}
+	}
 	ops := []Op{op("MuxClearAll", mx),
 		op("SigUpdateName", x, 0), op("SigUpdateName", f0, 1), op("SigUpdateName", f1, 2),
 		op("StdSetType", x, t8), op("StdSetType", f0, t4), op("StdSetType", f1, t8),
@@ -370,6 +379,54 @@ func badArgs(p *Pool, o Op) bool {
 		return e.K != KSig || e.Sig.Kind() != acme.SignalKindStandard
 	case len(o.Name) > 3 && o.Name[:3] == "Mux":
 		return e.K != KSig || e.Sig.Kind() != acme.SignalKindMultiplexer
+	}
+	return false
+}
+
+// sharedFollower: the call changes the size of a signal that sits in a multiplexer and, in some
+// group that holds it, a signal behind it is held by >= 2 groups or is fixed (evaluated before the
+// call). This is the shape of the open finding D35 of the C01/C07 stream: modifySignalSize moves
+// the followers once per group although their relative position is shared by the groups.
+func sharedFollower(p *Pool, o Op) bool {
+	var affected []acme.Signal
+	switch o.Name {
+	case "StdSetType", "EnumSetEnum":
+		if s := p.sig(o.A[0]); s != nil {
+			affected = append(affected, s)
+		}
+	case "EnumAddValue", "EnumRemoveValue", "EnumRemoveAllValues":
+		if e := p.enum(o.A[0]); e != nil {
+			for _, r := range e.References() {
+				affected = append(affected, r)
+			}
+		}
+	case "EvalUpdateIndex":
+		if v := p.eval(o.A[0]); v != nil && v.ParentEnum() != nil {
+			for _, r := range v.ParentEnum().References() {
+				affected = append(affected, r)
+			}
+		}
+	default:
+		return false
+	}
+	for _, s := range affected {
+		mx := s.ParentMultiplexerSignal()
+		if mx == nil {
+			continue
+		}
+		fixed, gids := mx.VerifFixedSignals(), mx.VerifSignalGroupIDs()
+		for _, grp := range mx.GetSignalGroups() {
+			seen := false
+			for _, x := range grp {
+				if x.EntityID() == s.EntityID() {
+					seen = true
+					continue
+				}
+				if seen && (fixed[x.EntityID()] || len(gids[x.EntityID()]) >= 2) {
+					return true
+				}
+			}
+		}
 	}
 	return false
 }
